@@ -37,10 +37,17 @@ Section Conic.
 
   Let res := k_std_distance XOps (Fin k) (Fin N) (Fin L) (Fin M) (Fin z) (Fin x) (Fin y) (Fin Rc).
 
+  Lemma Rlit_half : Rlit 5 (-1) = / 2. Proof. unfold Rlit; simpl; lra. Qed.
+  Lemma Rlit_one : Rlit 10 (-1) = 1. Proof. unfold Rlit; simpl; lra. Qed.
+
+  (** the kernel, with the four quantities a b c d named (numerically stable root form:
+      q = -(b + sgn(b) sqrt d)/2,  t1 = q/a,  t2 = c/q) *)
   Lemma res_unfold :
     res =
-    (let t1 := xdiv (xadd (xneg (Fin b)) (xsqrt (Fin d))) (Fin (2*a)) in
-     let t2 := xdiv (xsub (xneg (Fin b)) (xsqrt (Fin d))) (Fin (2*a)) in
+    (let sg := if Rltb b 0 then Fin (- 1) else Fin 1 in
+     let q := xmul (Fin (- / 2)) (xadd (Fin b) (xmul sg (xsqrt (Fin d)))) in
+     let t1 := xdiv q (Fin a) in
+     let t2 := if xeqb q (Fin 0) then t1 else xdiv (Fin c) q in
      let t1' := if xltb t1 (Fin 0) then PInf else t1 in
      let t2' := if xltb t2 (Fin 0) then PInf else t2 in
      let z1 := xadd (Fin z) (xmul t1' (Fin N)) in
@@ -48,24 +55,39 @@ Section Conic.
      let t := if xleb (xabs z1) (xabs z2) then t1' else t2' in
      if Reqb a 0 then xdiv (Fin (- c)) (Fin b) else t).
   Proof.
-    unfold res, k_std_distance. xops. cbn [xadd xsub xmul xneg xeqb].
+    unfold res, k_std_distance. xops. cbn [xadd xsub xmul xneg xeqb xltb].
+    rewrite Rlit_half, Rlit_one.
     replace (k * (N * N) + L * L + M * M + N * N) with a by (unfold a; ring).
     replace (2 * k * N * z + 2 * L * x + 2 * M * y + - (2 * N * Rc) + 2 * N * z) with b by (unfold b; ring).
     replace (k * (z * z) + - (2 * Rc * z) + x * x + y * y + z * z) with c by (unfold c; ring).
     replace (b * b + - (4 * a * c)) with d by (unfold d; ring).
-    reflexivity.
+    destruct (Rltb b 0); reflexivity.
   Qed.
 
-  Lemma root_on_quadric s : a <> 0 -> 0 <= d -> (s = 1 \/ s = -1) ->
-    let t := (- b + s * sqrt d) / (2*a) in c + t*b + t*t*a = 0.
+  (** key identity of the stable form: q^2 + b q + a c = 0 *)
+  Lemma q_identity s : 0 <= d -> (s = 1 \/ s = -1) ->
+    let q := - / 2 * (b + s * sqrt d) in q * q + b * q + a * c = 0.
   Proof.
-    intros Ha Hd Hs t. unfold t.
+    intros Hd Hs q. unfold q.
     assert (Hq : sqrt d * sqrt d = b*b - 4*a*c) by (rewrite sqrt_sqrt by exact Hd; reflexivity).
     assert (Hs2 : s*s = 1) by (destruct Hs; subst; ring).
-    apply Rmult_eq_reg_l with (4*a); [|lra].
-    replace (4*a*0) with 0 by ring.
-    transitivity (4*a*c - 2*b*b + 2*b*s*sqrt d + (b*b - 2*b*s*sqrt d + (s*s)*(sqrt d * sqrt d)) - 2*b*s*sqrt d + 2*b*s*sqrt d); [field; exact Ha|].
-    rewrite Hs2, Hq. ring.
+    transitivity (/ 4 * ((s*s) * (sqrt d * sqrt d) - b*b) + a*c); [field|].
+    rewrite Hs2, Hq. field.
+  Qed.
+
+  Lemma root1_on_quadric q : a <> 0 -> q * q + b * q + a * c = 0 ->
+    let t := q / a in c + t*b + t*t*a = 0.
+  Proof.
+    intros Ha Hq t. unfold t.
+    apply Rmult_eq_reg_l with a; [|exact Ha].
+    transitivity (q * q + b * q + a * c); [field; exact Ha|rewrite Hq; ring].
+  Qed.
+  Lemma root2_on_quadric q : q <> 0 -> q * q + b * q + a * c = 0 ->
+    let t := c / q in c + t*b + t*t*a = 0.
+  Proof.
+    intros Hq0 Hq t. unfold t.
+    apply Rmult_eq_reg_l with (q * q); [|apply Rmult_integral_contrapositive_currified; exact Hq0].
+    transitivity (c * (q * q + b * q + a * c)); [field; exact Hq0|rewrite Hq; ring].
   Qed.
 
   (** a finite distance puts the ray on the quadric of the prescription; the point is in
@@ -82,28 +104,36 @@ Section Conic.
       + intros H; injection H as <-. split; [|contradiction]. rewrite Ea. field; exact Eb.
     - cbn [xsqrt]. destruct (Rlt_dec d 0) as [Hd|Hd].
       + (* negative discriminant: everything is NaN *)
-        cbn. discriminate.
+        destruct (Rltb b 0); cbn; discriminate.
       + assert (Hd' : 0 <= d) by lra.
-        cbn [xneg xadd xsub xdiv].
-        destruct (Req_EM_T (2*a) 0) as [E2|E2]; [lra|].
-        cbn [xltb]. unfold Rltb.
-        set (t1 := (- b + sqrt d) / (2*a)). set (t2 := (- b + - sqrt d) / (2*a)).
-        assert (Q1 : c + t1*b + t1*t1*a = 0).
-        { generalize (root_on_quadric 1 Ea Hd' (or_introl eq_refl)). cbv zeta.
-          unfold t1. replace (1 * sqrt d) with (sqrt d) by ring. auto. }
-        assert (Q2 : c + t2*b + t2*t2*a = 0).
-        { generalize (root_on_quadric (-1) Ea Hd' (or_intror eq_refl)). cbv zeta.
-          unfold t2. replace (-1 * sqrt d) with (- sqrt d) by ring. auto. }
-        destruct (Rlt_dec t1 0) as [N1|N1]; destruct (Rlt_dec t2 0) as [N2|N2]; cbn [xmul xadd xabs xleb].
-        * (* both behind: inf / inf *)
-          destruct (Rlt_dec 0 N); [cbn; discriminate|]. destruct (Rlt_dec N 0); cbn; discriminate.
-        * destruct (Rlt_dec 0 N); [|destruct (Rlt_dec N 0)]; cbn [xadd xabs xleb];
-            try discriminate; intros H; injection H as <-; (split; [exact Q2|intros _; lra]).
-        * destruct (Rlt_dec 0 N); [|destruct (Rlt_dec N 0)]; cbn [xadd xabs xleb];
-            try (unfold Rleb; destruct (Rle_dec _ _)); try discriminate;
-            intros H; injection H as <-; (split; [exact Q1|intros _; lra]).
-        * unfold Rleb. destruct (Rle_dec _ _); intros H; injection H as <-;
-            (split; [assumption|intros _; lra]).
+        set (s := if Rltb b 0 then -1 else 1).
+        assert (Hs : s = 1 \/ s = -1) by (unfold s; destruct (Rltb b 0); auto).
+        assert (Esg : (if Rltb b 0 then Fin (-1) else Fin 1) = Fin s) by (unfold s; destruct (Rltb b 0); reflexivity).
+        rewrite Esg. cbn [xmul xadd].
+        set (q := - / 2 * (b + s * sqrt d)).
+        generalize (q_identity s Hd' Hs). cbv zeta. fold q. intros HQ.
+        cbn [xdiv]. destruct (Req_EM_T a 0) as [|_]; [contradiction|].
+        cbn [xeqb]. unfold Reqb. destruct (Req_EM_T q 0) as [Eq0|Eq0].
+        * (* q = 0: both roots are q/a *)
+          set (t1 := q / a).
+          assert (Q1 : c + t1*b + t1*t1*a = 0) by (apply (root1_on_quadric q Ea HQ)).
+          cbn [xltb]. unfold Rltb. destruct (Rlt_dec t1 0) as [N1|N1]; cbn [xmul xadd xabs xleb].
+          -- destruct (Rlt_dec 0 N); [cbn; discriminate|]. destruct (Rlt_dec N 0); cbn; discriminate.
+          -- unfold Rleb. destruct (Rle_dec _ _); intros H; injection H as <-; (split; [exact Q1|intros _; lra]).
+        * cbn [xdiv]. destruct (Req_EM_T q 0) as [|_]; [contradiction|].
+          set (t1 := q / a). set (t2 := c / q).
+          assert (Q1 : c + t1*b + t1*t1*a = 0) by (apply (root1_on_quadric q Ea HQ)).
+          assert (Q2 : c + t2*b + t2*t2*a = 0) by (apply (root2_on_quadric q Eq0 HQ)).
+          cbn [xltb]. unfold Rltb.
+          destruct (Rlt_dec t1 0) as [N1|N1]; destruct (Rlt_dec t2 0) as [N2|N2]; cbn [xmul xadd xabs xleb].
+          -- destruct (Rlt_dec 0 N); [cbn; discriminate|]. destruct (Rlt_dec N 0); cbn; discriminate.
+          -- destruct (Rlt_dec 0 N); [|destruct (Rlt_dec N 0)]; cbn [xadd xabs xleb];
+               try discriminate; intros H; injection H as <-; (split; [exact Q2|intros _; lra]).
+          -- destruct (Rlt_dec 0 N); [|destruct (Rlt_dec N 0)]; cbn [xadd xabs xleb];
+               try (unfold Rleb; destruct (Rle_dec _ _)); try discriminate;
+               intros H; injection H as <-; (split; [exact Q1|intros _; lra]).
+          -- unfold Rleb. destruct (Rle_dec _ _); intros H; injection H as <-;
+               (split; [assumption|intros _; lra]).
   Qed.
 
   (** no real intersection (negative discriminant) is reported as NaN, never as a number *)
@@ -111,7 +141,7 @@ Section Conic.
   Proof.
     intros Ha Hd. rewrite res_unfold. cbv zeta. unfold Reqb.
     destruct (Req_EM_T a 0); [contradiction|].
-    cbn [xsqrt]. destruct (Rlt_dec d 0); [|lra]. reflexivity.
+    cbn [xsqrt]. destruct (Rlt_dec d 0); [|lra]. destruct (Rltb b 0); reflexivity.
   Qed.
 End Conic.
 
